@@ -26,10 +26,15 @@ def lost_derivations_known(g, mon):
     return None
 
 
-def duplicate_packing_known(dups):
+def duplicate_packing_known(dups, mon=None):
     """KF-C03-1 (part 1): all identical alternatives are attributed to repeated
-    reduce events (one of them limited, or an epsilon production)."""
+    reduce events (one of them limited, or an epsilon production) - and, when
+    the GSS monitor is given, every revisit of this parse concerned a head the
+    actor had already processed (the recorded mechanism; a head revisited while
+    it still waits for the actor reduces twice for another reason)."""
     if not dups:
+        return None
+    if mon is not None and mon.c.get("revisit_before_actor", 0):
         return None
     if all(d["attributed"] for d in dups):
         return "KF-C03-1"
